@@ -3,7 +3,8 @@
 n=$1; shift
 W=/tmp/trymut-$n
 rm -rf $W; mkdir -p $W; rsync -a --exclude target --exclude .git /repo/ $W/
-( cd $W && patch -p1 -s < <(grep -v '^# ' /verif/mutants/$n.patch) ) || { echo "patch failed"; exit 2; }
+P=/verif/mutants/$n.patch; [ -f $P ] || P=/tmp/pending-neg/$n.patch
+( cd $W && patch -p1 -s < <(grep -v '^# ' $P) ) || { echo "patch failed"; exit 2; }
 export VF_EVIDENCE_DIR=/tmp/seed-evidence
 for p in "$@"; do /verif/vf.sh check $p --repo $W 2>&1 | grep -E -A1 "^VIOLATION|INCONCLUSIVE" | grep -v "^--" | cut -c1-600; done
 [ -n "$KEEP" ] || rm -rf $W
